@@ -383,8 +383,14 @@ class C10(Prop):
         "SRR extent/shape clause: when the model's validity check accepts the configuration the demanded shape is Lean's "
         "reconRows/reconCols (the C09 specification) and both the extent/pixel ratio and the shape pewlib reconstructs must equal it; "
         "when the reconstruction raises nothing is compared (C09 covers success)",
-        "a change of the array LAYOUT of to_array (field names, order, the SpotConfig two-element array) that keeps the values through "
+        "a change of the array LAYOUT of to_array (field names, order, dtype, the SpotConfig two-element array) that keeps the values through "
         "the round trip is reported as an implementation-vs-model difference, not as a violation of the specification",
+        "from_array applied to the array of ANOTHER configuration class (exception class, or Config accepting an SRR array) is outside the "
+        "property: it is compared with the model (theorem config_array_cross_kind) and a difference is recorded only",
+        "values outside the normal float64 range (a product that under/overflows, subnormal pixel sizes) are recorded only: the "
+        "round trip of the parameters themselves is still demanded exactly",
+        "float32 parameters are used only where float32 arithmetic is exact (all parameters with numerator < 128 and denominator <= 8, "
+        "images up to 100 pixels per side); NumPy computes speed * scantime in float32 for float32 operands, which is no defect of pewlib",
     ]
 
     # ------------------------------------------------------------------ generation
@@ -1105,7 +1111,11 @@ class C10(Prop):
                     and ext_close(impl["roundtrip"]["extent"], m["roundtrip"]["extent"]) and m["data_extent"] == m["extent"]
                     and same_outcome(impl["roundtrip"], m["roundtrip"])
                     and canon_eq(impl["array"], m["array"]) and impl["dtypes"] == m["dtypes"]
-                    and all(same_outcome(o[k], j[k]) for o, j in zip(impl["from_arrays"], m["from_arrays"]) for k in ("raster", "spot")))
+                    and same_outcome(impl["from_arrays"][0][cfg["kind"]], m["from_arrays"][0][cfg["kind"]]))
+        # what from_array does with the array of ANOTHER configuration class (which exception, or which values) is behaviour no
+        # clause of the property speaks about: compared with the model, a difference is recorded only (DESIGN 13.2)
+        cross = all(same_outcome(o[k], j[k]) for o, j in zip(impl["from_arrays"], m["from_arrays"]) for k in ("raster", "spot"))
+        feats.add("from_array on other classes' arrays: as the model" if cross else "from_array on other classes' arrays differs from the model (recorded only)")
         return impl, m, s, spec_ok, model_ok
 
     def eval_extent(self, case, ctx):
